@@ -4,6 +4,7 @@
 mod alloc;
 mod ev;
 mod par;
+mod c02;
 mod c03;
 mod c07;
 mod chainx;
@@ -41,7 +42,7 @@ pub trait Engine {
 }
 
 fn engines() -> Vec<Box<dyn Engine>> {
-	vec![Box::new(c03::C03), Box::new(c07::C07)]
+	vec![Box::new(c02::C02), Box::new(c03::C03), Box::new(c07::C07)]
 }
 
 fn main() {
